@@ -18,6 +18,9 @@ type Profile struct {
 	QKinds  []int
 	NQ      [2]int
 	WrapPct int
+	BoundPct   int // percent of the wrapped in-memory queues that are bounded (capacity 1-3, Enqueue waits while full)
+	AckCapPct  int // percent of the wrapped standard queues that also implement IAcknowledgeable
+	WrapDeqPct int // percent of the wrapped in-memory queues that refuse 10-30 % of the dequeues although they are not empty
 	Conc    []int
 	Expiry  []int
 	Ratio   []int
@@ -57,6 +60,7 @@ type Profile struct {
 	AdFaults bool
 	PreloadPct int // percent (distributed kinds): 1-4 jobs already sit in the backend when the consumer binds
 	WarmPct  int // percent: a warm-up burst fills the idle pool first, every other task starts after it settled
+	NoAckID  []int // percent choices for deliveries without an acknowledgement id on adapter queues
 	AckStall []int // percent choices for stalled acknowledgements on adapter queues
 	Tunes   []int
 }
@@ -154,6 +158,15 @@ func generate(r *simrt.Rand, pf *Profile) (Cfg, *Program) {
 			k = k % 2
 		}
 		qc := QCfg{Kind: k, Wrap: r.Chance(pf.WrapPct)}
+		if k <= qkPrio && qc.Wrap && pf.BoundPct > 0 && r.Chance(pf.BoundPct) {
+			qc.Bound = 1 + r.Intn(3)
+		}
+		if k == qkStd && qc.Wrap && pf.AckCapPct > 0 && r.Chance(pf.AckCapPct) {
+			qc.AckCap = true
+		}
+		if k <= qkPrio && qc.Wrap && pf.WrapDeqPct > 0 && r.Chance(pf.WrapDeqPct) {
+			qc.FDeq = pick(r, []int{10, 30})
+		}
 		if k > qkPrio && pf.AdFaults && r.Chance(50) {
 			qc.FEnq = pick(r, []int{0, 0, 10, 30})
 			qc.FDeq = pick(r, []int{0, 0, 10, 30})
@@ -162,6 +175,9 @@ func generate(r *simrt.Rand, pf *Profile) (Cfg, *Program) {
 		}
 		if k > qkPrio && len(pf.AckStall) > 0 {
 			qc.FAckStall = pick(r, pf.AckStall)
+		}
+		if k > qkPrio && len(pf.NoAckID) > 0 {
+			qc.FNoAckID = pick(r, pf.NoAckID)
 		}
 		if k >= qkDist {
 			qc.NDelay = pick(r, []int{0, 1, 3})
@@ -469,6 +485,7 @@ func init() {
 	register(&Property{ID: "C01", Rule: "episodes in which >=1 job was accepted and >=1 context switch happened inside library code; distinct = hash of (context-switch site sequence, program, configuration)",
 		Gen: func(r *simrt.Rand, tier string) (Cfg, *Program) {
 			pf := baseProfile()
+			pf.WrapDeqPct = 15 // user-supplied queues that refuse a dequeue now and then
 			pf.QKinds = allKinds
 			pf.Expiry = []int{0, 0, 0, 1, 50}
 			pf.TickW = []int{0, 2, 10}
@@ -503,6 +520,8 @@ func init() {
 	register(&Property{ID: "C03", Rule: "episodes with >=2 accepted jobs, a running worker at the end and >=1 library context switch; distinct = schedule/program hash",
 		Gen: func(r *simrt.Rand, tier string) (Cfg, *Program) {
 			pf := baseProfile()
+			pf.BoundPct = 10 // bounded user queues: a producer waiting for room relies on the worker being woken for what is already in
+			pf.WrapDeqPct = 15 // user-supplied queues that refuse a dequeue now and then
 			pf.Expiry = []int{0, 0, 1, 50}
 			pf.TickW = []int{0, 2, 10}
 			pf.Adds = [2]int{2, 8}
@@ -536,6 +555,8 @@ func init() {
 	register(&Property{ID: "C05", Rule: "episodes in which a handle call (Wait/Result/Err/batch Wait) was invoked before the job was released; distinct = schedule/program hash",
 		Gen: func(r *simrt.Rand, tier string) (Cfg, *Program) {
 			pf := baseProfile()
+			pf.AckCapPct = 10
+			pf.WrapDeqPct = 15 // user-supplied queues that refuse a dequeue now and then
 			pf.BatchPct, pf.BatchMax = 25, 6
 			pf.GatedPct, pf.DelayPct = 30, 40
 			pf.ErrPct, pf.PanicPct = 15, 5
@@ -555,7 +576,24 @@ func init() {
 				pf.Releaser = 100
 			}
 			bigBatch(pf, r, tier)
-			return generate(r, pf)
+			c, p := generate(r, pf)
+			for _, q := range c.Queues {
+				if q.AckCap {
+					// Purge on a queue with the acknowledgement methods empties the backend and
+					// closes nothing ("adapter-backed queues hold serialized jobs", queue.go): with
+					// job objects in it that is outside what C05/C10 state, so no purges here
+					for t := range p.Tasks {
+						var ops []Op
+						for _, o := range p.Tasks[t] {
+							if o.K != opPurge {
+								ops = append(ops, o)
+							}
+						}
+						p.Tasks[t] = ops
+					}
+				}
+			}
+			return c, p
 		},
 		NonTrivial: func(ep *Episode) bool {
 			for _, c := range ep.W.rec.calls {
@@ -570,6 +608,7 @@ func init() {
 	register(&Property{ID: "C06", Rule: "episodes in which a barrier call (WaitUntilFinished/PauseAndWait/Stop/WaitAndStop) was invoked while jobs were pending or in flight; distinct = schedule/program hash",
 		Gen: func(r *simrt.Rand, tier string) (Cfg, *Program) {
 			pf := baseProfile()
+			pf.WrapDeqPct = 15 // user-supplied queues that refuse a dequeue now and then
 			pf.Conc = []int{1, 1, 2, 3, 4}
 			pf.Adds = [2]int{1, 5}
 			pf.GatedPct, pf.DelayPct = 20, 40
@@ -653,6 +692,7 @@ func init() {
 	register(&Property{ID: "C09", Rule: "episodes in which PauseAndWait/Stop/WaitAndStop/Pause returned nil while accepted jobs had not started; distinct = schedule/program hash",
 		Gen: func(r *simrt.Rand, tier string) (Cfg, *Program) {
 			pf := baseProfile()
+			pf.WrapDeqPct = 15 // user-supplied queues that refuse a dequeue now and then
 			pf.Conc = []int{1, 1, 2, 3, 4}
 			pf.Producers, pf.Adds = [2]int{1, 3}, [2]int{2, 8}
 			pf.DelayPct, pf.MaxDelay = 20, 2
@@ -699,6 +739,7 @@ func init() {
 	register(&Property{ID: "C10", Rule: "episodes in which a Close/Purge/queue.Close call overlapped or preceded dispatch of a job it targeted; distinct = schedule/program hash",
 		Gen: func(r *simrt.Rand, tier string) (Cfg, *Program) {
 			pf := baseProfile()
+			pf.WrapDeqPct = 15 // user-supplied queues that refuse a dequeue now and then
 			pf.BatchPct, pf.BatchMax = 25, 6
 			pf.GatedPct, pf.DelayPct = 25, 20
 			pf.ErrPct, pf.PanicPct = 10, 5
@@ -724,6 +765,7 @@ func init() {
 	register(&Property{ID: "C16", Rule: "episodes with >=2 status samples of one job taken by other tasks while it moved through its lifecycle; distinct = schedule/program hash",
 		Gen: func(r *simrt.Rand, tier string) (Cfg, *Program) {
 			pf := baseProfile()
+			pf.WrapDeqPct = 15 // user-supplied queues that refuse a dequeue now and then
 			pf.BatchPct, pf.BatchMax = 15, 5
 			pf.DelayPct, pf.GatedPct = 10, 10
 			pf.Samplers, pf.SampleOps = [2]int{1, 3}, [2]int{2, 8}
@@ -788,6 +830,7 @@ func init() {
 	register(&Property{ID: "C02", Rule: "episodes in which the number of simultaneously executing worker functions reached the concurrency limit at least once; distinct = schedule/program hash",
 		Gen: func(r *simrt.Rand, tier string) (Cfg, *Program) {
 			pf := baseProfile()
+			pf.WrapDeqPct = 15 // user-supplied queues that refuse a dequeue now and then
 			pf.Conc = []int{1, 1, 2, 2, 3, 4, 0, -3}
 			pf.Adds = [2]int{3, 10}
 			pf.GatedPct, pf.DelayPct = 80, 20
@@ -808,7 +851,26 @@ func init() {
 			// of that path belongs to the bound as well
 			pf.Cancellers, pf.CancelOps = [2]int{0, 1}, [2]int{1, 4}
 			pf.Cancel = []wop{{opCloseJob, 8}, {opPurge, 1}}
+			if r.Chance(25) {
+				pf.NQ = [2]int{2, 2} // two queues: a refused dequeue on one must not cost or win a slot on the other
+			}
+			lateBind := r.Chance(15)
+			if lateBind {
+				pf.WKinds = []int{wkPlain}
+				pf.NQ = [2]int{1, 1}
+			}
 			c, p := generate(r, pf)
+			if lateBind {
+				// "binding further queues never raises the effective parallelism": a distributed
+				// backend that already holds jobs is bound while the worker is saturated
+				for k, n := 0, 2+r.Intn(3); k < n; k++ {
+					p.Subs = append(p.Subs, SubT{N: len(p.Subs), Q: 1, Batch: -1, Pre: true, Gated: r.Chance(80)})
+				}
+				op := Op{K: opBind, A: pick(r, []int{qkDist, qkDistPrio})}
+				t := r.Intn(len(p.Tasks))
+				pos := r.Intn(len(p.Tasks[t]) + 1)
+				p.Tasks[t] = append(p.Tasks[t][:pos:pos], append([]Op{op}, p.Tasks[t][pos:]...)...)
+			}
 			if r.Chance(30) {
 				// a second goroutine tuning the pool at the same time: the limit in effect is
 				// always one of the requested values
